@@ -163,6 +163,7 @@ func audit(r *ev.Run, s *hist.SUT, op hist.Op, m *irr) []hist.Problem {
 		return []hist.Problem{{Sig: "irr|tip-unknown", Detail: "state tip unknown after " + op.String()}}
 	}
 	newChain := t.Path(tip)
+	var preWalkRaise int64
 	failed := strings.HasPrefix(op.Result, "FAIL")
 	prune := op.Kind == "walk" && op.Arg == ",prune"
 	before := m.value
@@ -204,6 +205,33 @@ func audit(r *ev.Run, s *hist.SUT, op hist.Op, m *irr) []hist.Problem {
 		return []hist.Problem{{Sig: "legal-op-failed|" + op.Kind, Detail: "legal operation failed: " + op.String()}}
 	}
 	// update the model
+	if m.w > 0 && (op.Kind == "receive" || strings.HasSuffix(op.Kind, "fault") && strings.Contains(op.Arg, "receive")) && s.LedgerTipBefore >= 0 && len(m.chain) > 0 {
+		// The engine's receive path first walks the state to the ledger's tip of the moment when
+		// the two differ, and only then stores the block and walks to the new tip. Blocks applied by
+		// the first walk count ("maximum over blocks EVER applied") even when the second walk
+		// undoes them again. A walk that would undo a finalised block is refused (it may have
+		// undone blocks above the finalised height first: that raises nothing).
+		cur := m.chain[len(m.chain)-1]
+		walk := func(target int) {
+			lca := cur
+			for !t.IsAncestor(lca, target) {
+				lca = t.Blocks[lca].Parent
+			}
+			if lca != cur && t.Blocks[lca].Height+1 <= m.value {
+				return // refused
+			}
+			for _, j := range t.Path(target) {
+				m.value = max64(m.value, t.Blocks[j].Height-m.w)
+			}
+			cur = target
+		}
+		if s.LedgerTipBefore != cur {
+			before0 := m.value
+			walk(s.LedgerTipBefore)
+			preWalkRaise = m.value - before0
+			r.Count("receive.pre-sync-walk-modelled", 1)
+		}
+	}
 	if m.w > 0 {
 		if prune && !failed {
 			// explicit pruning: the value may be lowered to (lowest undone height - w), floored at 0
@@ -235,6 +263,12 @@ func audit(r *ev.Run, s *hist.SUT, op hist.Op, m *irr) []hist.Problem {
 	}
 	m.chain = newChain
 	meta := s.N.State.GetMeta()
+	if op.Result != "ok" && preWalkRaise > 0 && meta.IrreversibleBlockHeight >= m.value-preWalkRaise && meta.IrreversibleBlockHeight <= m.value {
+		// an ignored / failed / faulted receive may or may not have got as far as its first walk:
+		// either value is right then
+		m.value = meta.IrreversibleBlockHeight
+		r.Count("receive.pre-sync-walk-either-way", 1)
+	}
 	r.Count("irr.compared", 1)
 	if meta.IrreversibleBlockHeight != m.value || meta.IrreversibleSlideWindow != m.w {
 		ps = append(ps, hist.Problem{Sig: "irr|value|after-" + op.Kind, Detail: fmt.Sprintf(
